@@ -205,7 +205,16 @@ def run(rep, wd, tier, seed):
     from . import isocheck
     tjobs = [(seed, 7000 + k, bool(k & 1), (2, 3, 5)[k % 3], 2 * P - 30, lo, lo + 299) for k in range(4) for lo in (0, 900)]
     touts = isocheck.mark_threaded([[t] for t in isocheck.threaded('harness.c09', '_drive', tjobs, procs=2)])
-    traces = [t for t in vbsc.parallel(_drive, jobs) + [o[0] for o in touts] if len(t['events']) > 1]
+    # part of the cuts of UNBLOCKED files in an interpreter started with -bb (text made from bytes is an error there).
+    # Blocked files are left out: on the unchanged tree Block1014.write formats its argument into a debug message
+    # (f'bytes_to_write={...}') whether or not debug logging is on, so every blocked write raises BytesWarning under
+    # -bb - the library does not support that mode for blocked output (DESIGN 8.5, round 9)
+    ub = [j for j in jobs if j[2] is False and j[3] not in (-77777,)]
+    bjobs = [(j[0], 9000 + j[1]) + tuple(j[2:]) for j in ub[:: max(1, len(ub) // 16)]] + [(seed, 9900 + k, False, 3, 40, 0, 200) for k in range(4)]
+    bouts = isocheck.pool_flags('harness.c09', '_drive', bjobs, ('-bb',))
+    for t in bouts:
+        t['_desc'] = str(t.get('_desc')) + ' [python -bb]'
+    traces = [t for t in vbsc.parallel(_drive, jobs) + [o[0] for o in touts] + bouts if len(t['events']) > 1]
     cuts = sum(1 for t in traces for e in t['events'] if e['op'] == 'cut')
     rep.extra['cuts_read_with_real_reader'] = cuts
     rep.extra['files'] = nfiles
